@@ -59,6 +59,7 @@ type FuncSpec struct {
 	IsIface   bool
 	AtAsserts []*AtAssert // assertions checked at every call site of a given callee inside this function
 	Assumes   []*Clause // trusted postconditions: assumed by callers, not proved for the body (listed as assumptions)
+	PerReturn bool   // check each ensures clause at each return site separately (simpler queries for functions with many exits)
 	IOEffect  bool   // the function performs file-system effects (counted by io_calls())
 	Conforms  string // key of the interface-method contract this method must satisfy
 	Content   bool   // generate quantified content facts for append/copy
@@ -106,6 +107,7 @@ type Specs struct {
 	SpecOrd []string
 	Ghosts  map[string]*GhostField // key Type.Name
 	GhostGl map[string]string      // ghost globals: name -> sort
+	Frameless map[string]bool      // ghost globals that every call may change unless its contract says otherwise (no frame obligations)
 	Guards  []*GuardedBy
 	Lemmas  []*Lemma
 	Axioms  []*Clause
@@ -118,7 +120,7 @@ type Specs struct {
 
 func NewSpecs() *Specs {
 	return &Specs{Funcs: map[string]*FuncSpec{}, SpecFns: map[string]*SpecFunc{}, Ghosts: map[string]*GhostField{},
-		GhostGl: map[string]string{}, Consts: map[string]string{}, Scan: map[string]int{}, Pools: map[string]*PoolDecl{}, Preds: map[string]*SpecFunc{}}
+		GhostGl: map[string]string{}, Frameless: map[string]bool{}, Consts: map[string]string{}, Scan: map[string]int{}, Pools: map[string]*PoolDecl{}, Preds: map[string]*SpecFunc{}}
 }
 
 var reLabel = regexp.MustCompile(`^\[([^\]]+)\]\s*`)
@@ -231,6 +233,8 @@ func (sp *Specs) LoadSpecFile(path string) error {
 			cur.PanicsOK = true
 		case "io_effect":
 			cur.IOEffect = true
+		case "per_return":
+			cur.PerReturn = true
 		case "content":
 			cur.Content = true
 		case "ownership":
@@ -319,6 +323,9 @@ func (sp *Specs) LoadSpecFile(path string) error {
 				sp.Ghosts[g.Type+"."+g.Name] = g
 			} else if len(f) >= 3 && f[0] == "global" {
 				sp.GhostGl[f[1]] = f[2]
+				if len(f) >= 4 && f[3] == "frameless" {
+					sp.Frameless[f[1]] = true
+				}
 			} else if cur != nil {
 				cur.Ghost = append(cur.Ghost, rest)
 				lastExpr = &cur.Ghost[len(cur.Ghost)-1]
